@@ -1699,7 +1699,7 @@ def check_sinc(case):
     else:
         # ScalarField.from_expression: the point-wise fall-back evaluates cell by cell
         grid = pde.UnitGrid([3])
-        text = form.replace("y", repr(y))
+        text = form.replace("y", f"({y!r})")  # (in parentheses: `-0.6**2` is -(0.6**2); false alarm at VERIF_SEED=2)
         fld = run_generated(lambda: accept(lambda: pde.ScalarField.from_expression(grid, text), text, "from_expression"),
                             text, "sinc/field")
         xs = grid.cell_coords[..., 0]
